@@ -147,6 +147,10 @@ for _n in OUTCOME_ARGS:
 
 
 def execute(config, chooser, faults=True, make_forwarder=None):
+    # "<name>+fine": every call a reporter makes into its own forwarder is a scheduling point too,
+    # so that state wrongly shared between forwarders (class/module level) is exposed
+    fine = config.endswith("+fine")
+    config = config.split("+")[0]
     scripts = CONFIGS[config]
     sched = S.Scheduler(chooser, horizon=2000, exit_points=False)  # nothing in this harness observes thread termination
     sem = S.SSemaphore(sched, 1)
@@ -159,6 +163,8 @@ def execute(config, chooser, faults=True, make_forwarder=None):
         excs = seen_exc.setdefault(idx, [])
 
         def call(label, fn, *a, **kw):
+            if fine:
+                sched.point("forwarder.%s" % (label[-1],))
             try:
                 return fn(*a, **kw)
             except Exception as e:
@@ -213,6 +219,7 @@ def expected_block(script_state, step):
 
 def check_execution(config, sched, sem, target, seen_exc):
     problems = []
+    config = config.split("+")[0]
     scripts = CONFIGS[config]
     if sched.deadlock:
         problems.append(("deadlock", sched.deadlock))
@@ -298,8 +305,13 @@ BOUNDS = {
         ("3x1", (1, 1)),
         ("2xctl", (2, 1)),
         ("2x1", (99, 1)),
+        ("2x1+fine", (2, 0)),
+        ("2x2+fine", (2, 0)),
     ],
     "thorough": [
+        ("2x1+fine", (99, 0)),
+        ("2x2+fine", (3, 0)),
+        ("3x1+fine", (2, 0)),
         ("2x2", (3, 1)),
         ("2x2", (99, 0)),
         ("3x1", (2, 1)),
